@@ -7,11 +7,15 @@ read-only git commands in between — and the final notes and blame must be iden
 """
 import concurrent.futures, copy, json, os, traceback
 
-from vlib import common as C, e2e, sysrun as S
+from vlib import common as C, e2e, sysrun as S, sysmrun as M
 from vlib.props import c01
 
 PROP = "C14"
-THEOREMS = ["GitAi.Sys.checkpoint_idempotent", "GitAi.Sys.granularity_checkpoints", "GitAi.Sys.granularity_split_agent_edit"]
+THEOREMS = ["GitAi.Sys.checkpoint_idempotent", "GitAi.Sys.granularity_checkpoints", "GitAi.Sys.granularity_split_agent_edit",
+            # several files under one working log (Model/SysMulti.lean, Props/SysMulti.lean)
+            "GitAi.SysMulti.prune_per_file", "GitAi.SysMulti.next_checkpoint_base", "GitAi.SysMulti.checkpoint_scope",
+            "GitAi.SysMulti.aiEdit_scope", "GitAi.SysMulti.checkpoint_split_by_file", "GitAi.SysMulti.file_isolation",
+            "GitAi.SysMulti.preExact_needed", "GitAi.SysMulti.commit_exact_lifted"]
 
 READONLY = [["status"], ["status", "--short"], ["log", "--oneline", "-3"], ["diff"], ["diff", "--cached", "--stat"],
             ["show", "--stat", "HEAD"], ["branch"], ["rev-parse", "HEAD"], ["ls-files"], ["log", "-1", "--format=%H"],
@@ -69,7 +73,8 @@ def refine(sc, seed, k):
     steps = copy.deepcopy(sc["steps"])
     kinds = []
     for _ in range(k):
-        kind = rng.pick(["extra_human_checkpoint", "repeat_checkpoint", "split_agent_edit", "readonly"])
+        kind = rng.pick(["extra_human_checkpoint", "repeat_checkpoint", "split_agent_edit", "readonly"] +
+                        (["split_agent_edit_by_file"] * 3 if any(st["op"] == "edit_multi" for st in steps) else []))
         if kind == "extra_human_checkpoint":
             idx = [i for i, st in enumerate(steps) if st["op"] == "edit" and st["who"] == "human"]
             if not idx:
@@ -96,10 +101,19 @@ def refine(sc, seed, k):
                         if sp:
                             cands.append((i, sp))
                     cur[st["path"]] = st["lines"]
+                elif st["op"] == "edit_multi":
+                    cur.update(st["files"])
             if not cands:
                 continue
             i, sp = rng.pick(cands)
             steps[i:i + 1] = sp
+        elif kind == "split_agent_edit_by_file":
+            # one agent checkpoint covering several files -> one checkpoint per file (same session, same edits)
+            idx = [i for i, st in enumerate(steps) if st["op"] == "edit_multi"]
+            if not idx:
+                continue
+            i = rng.pick(idx)
+            steps[i:i + 1] = M.split_multi_by_file(steps[i])
         else:
             i = 1 + rng.below(len(steps))
             steps.insert(i, {"op": "git", "args": rng.pick(READONLY), "redundant": True})
@@ -109,13 +123,7 @@ def refine(sc, seed, k):
     return out
 
 
-class Runner14(S.Runner):
-    def step(self, st):
-        if st["op"] == "ai_checkpoint_again":
-            res = self.repo.ai_checkpoint(st["who"], [st["path"]], tool=S.TOOL)
-            self.log.append({"step": st, "rc": res[0]})
-            return res
-        return super().step(st)
+Runner14 = M.RunnerM      # knows `ai_checkpoint_again` and `edit_multi`, records the working log before every commit
 
 
 def final_state(sc):
@@ -133,7 +141,12 @@ def final_state(sc):
             if lines:
                 bj = run.repo.blame(p)
                 blame[p] = {str(l): h for l, h in e2e.blame_line_hashes(bj).items()} if bj is not None else None
-        return {"notes": notes, "blame": blame, "ncommits": len(run.commits)}
+        out = {"notes": notes, "blame": blame, "ncommits": len(run.commits)}
+        if sc.get("style") == "multi-file":
+            # raw material of the correspondence with Model/SysMulti.lean (not part of the metamorphic comparison)
+            sc["_m"] = {"observed": [S.observed_note_lines(run.repo.note(sha)) for sha, _ in run.commits[1:]],
+                        "commit_ok": list(run.commit_ok), "logs": run.logs_before_commit}
+        return out
 
 
 def run_pair(args, _attempt=0):
@@ -151,13 +164,58 @@ def run_pair(args, _attempt=0):
     return out
 
 
+def phase_sysm(res, runs):
+    """Correspondence of Model/SysMulti.lean (driver op `sysm_run`) with the binary on the multi-file histories
+    that were just executed (bases and refinements): predicted note lines of every (file, commit) = observed."""
+    todo = []
+    for sc in runs:
+        m = sc.pop("_m", None)
+        if m is None:
+            continue
+        req, pids, sess, made = M.sysm_request(sc, commit_ok=m["commit_ok"])
+        todo.append((sc, m, req, pids, sess))
+    if not todo:
+        return
+    resps = C.run_driver([t[2] for t in todo])
+    ncmp, bad, iso, nlog, badlog = 0, [], [], 0, []
+    for (sc, m, req, pids, sess), resp in zip(todo, resps):
+        n, b, i = M.compare_response(req, pids, sess, resp, m["observed"])
+        ncmp += n
+        bad += [dict(x, seed=sc["seed"], refinements=sc.get("refinements")) for x in b]
+        iso += i
+        # (a `git stash …` takes a checkpoint with the pre-commit fast paths, which the model does not have: notes only)
+        n2, b2 = (0, []) if M.stash_in(sc) else M.compare_logs(pids, resp, m["logs"], m["commit_ok"])
+        nlog += n2
+        badlog += [dict(x, seed=sc["seed"], refinements=sc.get("refinements"), request=req) for x in b2]
+        res.tag([f"sysm-ops={min(len(req['ops']) // 5 * 5, 30)}+"] + [f"sysm-op={o['k']}" for o in req["ops"]][:0])
+        for o in {o["k"] for o in req["ops"]}:
+            res.tags[f"sysm-op={o}"] = res.tags.get(f"sysm-op={o}", 0) + 1
+    cs = res.extra.setdefault("correspondence", {}).setdefault("sysm-e2e", {"compared": 0, "disagreements": 0, "scenarios": 0})
+    cs["compared"] += ncmp; cs["disagreements"] += len(bad); cs["scenarios"] += len(todo)
+    res.obligation("correspondence:sysm-e2e (SysMulti model's predicted notes of every file and commit vs notes written by the binary)",
+                   not bad, "correspondence")
+    if bad:
+        res.broken_tie("correspondence:sysm-e2e", {"disagreements": len(bad), "of": ncmp, "first": bad[0]})
+    cl = res.extra["correspondence"].setdefault("sysm-log-shape", {"compared": 0, "disagreements": 0})
+    cl["compared"] += nlog; cl["disagreements"] += len(badlog)
+    res.obligation("correspondence:sysm-log-shape (working log before every commit: same checkpoints, same files per checkpoint, "
+                   "character ranges cleared exactly where the model's prune clears them)", not badlog, "correspondence")
+    if badlog:
+        res.broken_tie("correspondence:sysm-log-shape", {"disagreements": len(badlog), "of": nlog, "first": badlog[0]})
+    res.obligation("driver cross-check: one-file run of the projected operations ends as the multi-file run (file_isolation, executed)",
+                   not iso, "correspondence")
+    if iso:
+        res.broken_tie("driver cross-check file_isolation", {"failures": len(iso), "first": iso[0]})
+
+
 def phase(res, seeds, nvar, k, threads=16):
     jobs = []
     for n_, s in enumerate(seeds):
-        sc = c01.gen_scenario(s) if n_ % 2 == 0 else gen_tail_human(s)
+        sc = [c01.gen_scenario, gen_tail_human, M.gen_multi][n_ % 3](s)
         jobs.append((sc, [refine(sc, s * 31 + j, 1 + (j % k)) for j in range(nvar)]))
     with concurrent.futures.ThreadPoolExecutor(threads) as ex:
         outs = list(ex.map(run_pair, jobs))
+    phase_sysm(res, [x for sc, vs in jobs for x in [sc] + vs])
     for (sc, _), pairs in zip(jobs, outs):
         for v, base, got in pairs:
             if v is None:
@@ -170,18 +228,21 @@ def phase(res, seeds, nvar, k, threads=16):
                 kinds = "+".join(sorted(set(v["refinements"])))
                 diff = {"notes_equal": base["notes"] == got["notes"], "blame_equal": base["blame"] == got["blame"]}
                 res.oracle_failure(f"attribution-changed-by:{kinds}",
-                                   {"base_scenario": sc, "refined_steps": [{k_: (v_ if k_ != "lines" else v_) for k_, v_ in st.items()} for st in v["steps"]],
+                                   {"base_scenario": {k_: v_ for k_, v_ in sc.items() if k_ != "_m"}, "refined_steps": [{k_: (v_ if k_ != "lines" else v_) for k_, v_ in st.items()} for st in v["steps"]],
                                     "refinements": v["refinements"], "base": base, "refined": got, "diff": diff},
                                    what="final notes/blame differ between a history and its refinement")
 
 
 def run(tier, seed):
     res = C.Result(PROP, tier, seed)
-    res.rule = ("end-to-end metamorphic: each generated base history (C01 generator, and histories whose rounds end with consecutive unreported edits by a person in agent-touched files) is replayed with 1-4 inserted redundancies "
+    res.rule = ("end-to-end metamorphic: each generated base history (C01 generator; histories whose rounds end with consecutive unreported edits by a person in agent-touched files; "
+                "multi-file histories: one agent checkpoint covering 2-3 files, then checkpoints touching one of them, people typing in other files, commits of a subset) is replayed with 1-4 inserted redundancies "
                 "(extra human checkpoint after a human edit, repeated checkpoint, agent edit split into two checkpoints of the "
-                "same session, read-only git command); canonical notes per commit and blame must be equal; non-trivial = at "
-                "least one redundancy inserted; distinct = distinct refined step list")
-    res.trusted = ["vlib/sysrun.py, vlib/props/c14.py refinement generator", "real git 2.39"]
+                "same session, a multi-file agent checkpoint split into one checkpoint per file, read-only git command); canonical notes per commit and blame must be equal; non-trivial = at "
+                "least one redundancy inserted; distinct = distinct refined step list. Correspondence (multi-file histories, bases and refinements): Model/SysMulti.lean through driver op sysm_run "
+                "predicts the note lines of every (file, commit) and the shape of the working log before every commit (checkpoints, files per checkpoint, cleared character ranges)")
+    res.trusted = ["vlib/sysrun.py, vlib/sysmrun.py (scenario -> sysm_run translation, multi-file generator), vlib/props/c14.py refinement generator", "real git 2.39",
+                   "Lean 4.33 kernel"]
     ok, out = C.build_git_ai()
     if not ok:
         res.obligation("build binary from /repo working tree", False, "build")
@@ -190,9 +251,9 @@ def run(tier, seed):
     if os.path.exists(os.path.join(C.LEAN, "GitAiModel", "Props", "C14.lean")):
         C.phase_proofs(res, PROP, THEOREMS)
     if tier == "quick":
-        phase(res, [seed * 100000 + i for i in range(48)], 3, 3)
+        phase(res, [seed * 100000 + i for i in range(60)], 3, 3)
     else:
-        phase(res, [seed * 100000 + i for i in range(500)], 6, 4)
+        phase(res, [seed * 100000 + i for i in range(750)], 6, 4)
     if res.broken and not res.violations:
         phase(res, [seed * 100000 + 50000 + i for i in range(120)], 4, 4)
         res.extra["search"] = "120 extra base histories x 4 refinements"
